@@ -118,6 +118,80 @@ fn compare<'a, E: EndianParse>(mk: impl Fn() -> NoteIterator<'a, E>, data: &'a [
     Ok((k, excluded || ambiguous))
 }
 
+type Digest = (u8, u64, Vec<u8>, Vec<u8>);
+
+fn digest(n: Note<'_>) -> Digest {
+    match n {
+        Note::GnuAbiTag(t) => (1, 1, vec![], [t.os, t.major, t.minor, t.subminor].iter().flat_map(|v| v.to_le_bytes()).collect()),
+        Note::GnuBuildId(b) => (3, 3, vec![], b.0.to_vec()),
+        Note::Unknown(a) => (0, a.n_type, a.name.to_vec(), a.desc.to_vec()),
+    }
+}
+
+/// The same section / segment through ElfStream over an instrumented reader (short reads, interruptions, any initial
+/// cursor; in half of the cases one transient I/O failure while the note bytes are loaded, after which the call is
+/// repeated): the first successful answer, and the one after it, are the notes the slice parser yields.
+fn via_stream<E: EndianParse>(e: E, bytes: &[u8], sec: Option<usize>, c: &mut Choice, obs: &mut Obs) -> Result<(), String> {
+    use verif_model::io::{Fault, FaultKind, Reader};
+    let what = if sec.is_some() { "section_data_as_notes" } else { "segment_data_as_notes" };
+    let file = open_as(e, bytes).map_err(|er| format!("harness: generated file does not open: {}", err_name(&er)))?;
+    let want: Vec<Digest> = match sec {
+        Some(i) => {
+            let sh = file.section_headers().ok_or("no section headers")?.get(i).map_err(|er| format!("shdr {}", err_name(&er)))?;
+            file.section_data_as_notes(&sh).map_err(|er| format!("section_data_as_notes failed with {}", err_name(&er)))?.map(digest).collect()
+        }
+        None => {
+            let ph = file.segments().ok_or("no segments")?.get(0).map_err(|er| format!("phdr {}", err_name(&er)))?;
+            file.segment_data_as_notes(&ph).map_err(|er| format!("segment_data_as_notes failed with {}", err_name(&er)))?.map(digest).collect()
+        }
+    };
+    let (chunks, intr) = crate::stream::gen_reader_behaviour(c, 1);
+    let pos0 = crate::stream::gen_initial_pos(c, bytes.len());
+    let reader = Reader::with(bytes.to_vec(), chunks.clone(), intr, vec![]).at_position(pos0);
+    let mut s = open_stream_as(e, reader.clone()).map_err(|er| format!("harness: generated file does not open as a stream: {}", err_name(&er)))?;
+    let fault = c.u8() >= 128;
+    if fault {
+        let at = reader.calls() + c.below(4);
+        let kind = if c.bool() { FaultKind::Error } else { FaultKind::Eof };
+        let ekind = c.below(8) as u8;
+        reader.st.borrow_mut().faults.push(Fault { at, kind, permanent: false, ekind });
+    }
+    let ctx = format!("ElfStream::{} (reader chunks {:?} interrupt_every {} initial position {}{})", what, chunks, intr, pos0, if fault { ", one transient I/O failure" } else { "" });
+    let mut answered = 0;
+    for attempt in 0..5 {
+        let fired0 = reader.fired();
+        let r: Result<Vec<Digest>, ParseError> = match sec {
+            Some(i) => {
+                let sh = s.section_headers()[i];
+                s.section_data_as_notes(&sh).map(|it| it.map(digest).collect())
+            }
+            None => {
+                let ph = s.segments()[0];
+                s.segment_data_as_notes(&ph).map(|it| it.map(digest).collect())
+            }
+        };
+        match r {
+            Ok(v) => {
+                if v != want {
+                    return Err(format!("{}: attempt #{} yields {:?}; the slice parser yields {:?}", ctx, attempt, v, want));
+                }
+                answered += 1;
+                if answered == 2 {
+                    break;
+                }
+            }
+            Err(er) => {
+                if reader.fired() == fired0 {
+                    return Err(format!("{}: attempt #{} failed with {} although no I/O call failed and the slice parser answers", ctx, attempt, err_name(&er)));
+                }
+                obs.label("stream_call_failed_on_injected_fault_then_retried");
+            }
+        }
+    }
+    obs.count("stream_paths_compared", 1);
+    Ok(())
+}
+
 fn oracle(case: &[u8], obs: &mut Obs) -> Result<(), String> {
     let mut c = Choice::new(case);
     let enc = ALL_ENC[c.below(4) as usize];
@@ -274,6 +348,12 @@ fn oracle(case: &[u8], obs: &mut Obs) -> Result<(), String> {
                 let sh = file.section_headers().ok_or("no section headers")?.get(i).map_err(|er| format!("shdr {}", err_name(&er)))?;
                 file.section_data_as_notes(&sh).map_err(|er| format!("section_data_as_notes failed with {}", err_name(&er)))?;
                 compare(|| file.section_data_as_notes(&sh).unwrap(), &b.bytes[off..off + len], enc.le, al, obs, "ElfBytes::section_data_as_notes")
+            })
+            .and_then(|r| {
+                if c.u8() >= 100 {
+                    with_endian!(spec, |e| via_stream(e, &b.bytes, Some(i), &mut c, obs))?;
+                }
+                Ok(r)
             })?
         }
         _ => {
@@ -290,6 +370,12 @@ fn oracle(case: &[u8], obs: &mut Obs) -> Result<(), String> {
                 let ph = file.segments().ok_or("no segments")?.get(0).map_err(|er| format!("phdr {}", err_name(&er)))?;
                 file.segment_data_as_notes(&ph).map_err(|er| format!("segment_data_as_notes failed with {}", err_name(&er)))?;
                 compare(|| file.segment_data_as_notes(&ph).unwrap(), &b.bytes[off..off + len], enc.le, al, obs, "ElfBytes::segment_data_as_notes")
+            })
+            .and_then(|r| {
+                if c.u8() >= 100 {
+                    with_endian!(spec, |e| via_stream(e, &b.bytes, None, &mut c, obs))?;
+                }
+                Ok(r)
             })?
         }
     };
@@ -316,7 +402,7 @@ pub fn property() -> Property {
     Property {
         id: "C14",
         level: "exploration",
-        rule: "cases are (class, order, fixed/run-time spec, alignment in {0,1,2,4,8,16, 3..32, 2^31, 2^32, 2^63, 2^64-1, boundary/raw values}, 0..20 notes with namesz/descsz 0..40 covering every residue, GNU ABI-tag (16-byte descriptor; rarely a shorter one, which must not yield a typed tag) and build-id notes, names \"GNU\\0\"/\"GNU\"/non-UTF-8/with 0..3 trailing NULs, tail = exact | garbage | truncated at any byte of the last record | one corrupted size word, access path = NoteIterator::new | section of a generated file | PT_NOTE segment of a generated file); oracle = independent reference walker (12-byte header of three 32-bit words in file order for both classes, name, pad, desc, pad): polled through fuse() the iterator stays None after its first None; items up to the first None equal the reference list (typed variants for GNU notes, name/desc exact byte ranges pointer-checked, name_str = UTF-8 minus trailing NULs), iteration ends at the first record that does not fit, align 0 yields nothing; nth/skip/count/last/step_by/size_hint on fresh and partly consumed iterators agree with repeated next(). Non-trivial: >=2 notes compared and (a length not a multiple of the alignment, or big-endian, or alignment != 4); distinct by (data, align, path) hash.",
+        rule: "cases are (class, order, fixed/run-time spec, alignment in {0,1,2,4,8,16, 3..32, 2^31, 2^32, 2^63, 2^64-1, boundary/raw values}, 0..20 notes with namesz/descsz 0..40 covering every residue, GNU ABI-tag (16-byte descriptor; rarely a shorter one, which must not yield a typed tag) and build-id notes, names \"GNU\\0\"/\"GNU\"/non-UTF-8/with 0..3 trailing NULs, tail = exact | garbage | truncated at any byte of the last record | one corrupted size word, access path = NoteIterator::new | section of a generated file | PT_NOTE segment of a generated file, the latter two in 60% of the cases also through ElfStream over a reader with short reads / interruptions / any initial cursor and, in half of those, one transient I/O failure while the note bytes are loaded followed by a repetition of the call: the first two successful answers equal the slice parser's notes, a failure needs a failed I/O call); oracle = independent reference walker (12-byte header of three 32-bit words in file order for both classes, name, pad, desc, pad): polled through fuse() the iterator stays None after its first None; items up to the first None equal the reference list (typed variants for GNU notes, name/desc exact byte ranges pointer-checked, name_str = UTF-8 minus trailing NULs), iteration ends at the first record that does not fit, align 0 yields nothing; nth/skip/count/last/step_by/size_hint on fresh and partly consumed iterators agree with repeated next(). Non-trivial: >=2 notes compared and (a length not a multiple of the alignment, or big-endian, or alignment != 4); distinct by (data, align, path) hash.",
         assumptions: &["a record whose empty descriptor would start in padding beyond the data is ambiguous under 'does not fit' and is excluded (counted)", "GNU ABI-tag notes with a descriptor shorter than 16 bytes (only reachable through the corrupted-size tail) are outside the statement and excluded (counted)"],
         subs: vec![Sub::new("notes", oracle, 2200, 2_000_000, 40_000_000)],
         extras: vec![crate::fuzz::c14_choice],
